@@ -475,14 +475,14 @@ def rule_F9(ctx: Ctx) -> None:
             ctx.judge(w, ok, {"total_solution_len": X.U(d[0]) if d else None}, exp)
 
 
-def _abstract_round_trip(ctx: Ctx, writer: str, reader: str) -> dict:
+def _abstract_round_trip(ctx: Ctx, writer: str, reader: str, lens: list[int] | None = None) -> dict:
     """serialize an abstract dataset with `writer` and load the result with `reader`, both interpreted by the checker over
     symbolic mazes (opaque connection-list symbols, solutions as arrays of symbolic cells, lengths 2 / 1 / 3 / 2: ragged, with a
     one-cell and two two-cell solutions); returns the loaded components or what went wrong"""
     from sa.absnp import MODELS, UNINIT, Arr
     from sa.fold import EvalRaised, Evaluator, Obj, Unknown
 
-    lens = [2, 1, 3, 2]
+    lens = list(lens or [2, 1, 3, 2])
     sols = [Arr([[f"s{k}.{i}r", f"s{k}.{i}c"] for i in range(n)]) for k, n in enumerate(lens)]
     mazes = [Obj("SolvedMaze", {"connection_list": f"CL{k}", "solution": sols[k], "start_pos": Arr(list(sols[k].data[0])), "end_pos": Arr(list(sols[k].data[-1])),
                                 "generation_meta": None}) for k in range(len(lens))]
@@ -610,6 +610,19 @@ def rule_F10(ctx: Ctx) -> None:
             ctx.unknown(wf, {"format": lit, "reader": rname}, exp)
             continue
         res = _abstract_round_trip(ctx, wname, rname)
+        if ctx.tier == "thorough" and "problem" not in res and "undecided" not in res:
+            # deeper bound: every vector of solution lengths in {1,2,3}^k, k <= 4 (120 abstract datasets per format)
+            n_more = 0
+            for k_ in range(1, 5):
+                for lv in itertools.product((1, 2, 3), repeat=k_):
+                    r2 = _abstract_round_trip(ctx, wname, rname, list(lv))
+                    n_more += 1
+                    if "problem" in r2 or "undecided" in r2:
+                        res = r2
+                        break
+                if "problem" in res or "undecided" in res:
+                    break
+            res["abstract_datasets"] = 1 + n_more
         ok = None if "undecided" in res else ("problem" not in res)
         ctx.judge(wf, ok, res, exp, "a stored dataset is loaded back with solutions cut at the wrong length, attached to the wrong maze, reordered, or with components dropped")
     # the collection: every member is stored through its *own* serialize() (which picks the member's format) and reloaded in order
